@@ -252,6 +252,51 @@ type cllWalk struct {
 	// while the BatchRelease is Progressing on the rolled revision, or before any BatchRelease exists)
 	sup    bool
 	supNow bool
+	// sticky history flags = the input regions of open findings (guards of the C05 / C04 oracles of slice cltraffic):
+	// lateRelease: a revision was admitted while a clean-up (doFinalising) was running (releaseWhileFinalising);
+	// earlyExit: the Rollout was deleted while the workload was held back and no BatchRelease existed (exitBeforeBatchRelease);
+	// noRevKey: a clean-up reconcile ran while the workload was unreadable and the stable Service pinned (noRevKey)
+	lateRelease bool
+	earlyExit   bool
+	noRevKey    bool
+	// staleCursor: a clean-up / reset reconcile ran from a FinalisingStep cursor that another, unfinished activity had
+	// written (an abandoned continuous-release reset, a rollback clean-up overtaken by a deletion, …) — proposed finding
+	// staleCursor; cursorAct: the activity that owns the cursor at present
+	staleCursor bool
+	cursorAct   string
+	lastAct     string // activity of the previous Rollout reconcile
+	kind        string
+}
+
+// cllActivity: which activity of the Rollout controller would run on this state (the owner of the clean-up cursor)
+func cllActivity(cs cllCS) string {
+	if cs.Ro == nil {
+		return "none"
+	}
+	// (the reconcile that notices a deletion still dispatches on the phase it read: Progressing)
+	if cs.Ro.Phase == "Terminating" || cs.Ro.Phase == "Disabling" {
+		return "other"
+	}
+	if cs.Ro.Phase != "Progressing" {
+		return "none"
+	}
+	switch cs.Ro.Reason {
+	case "finalising":
+		return "other" // canary style: the success list is the list of the other exit reasons
+	case "cancelling":
+		return "rollback"
+	case "inRolling":
+		if cs.Ro.Sub != nil && cs.Wl != nil && cs.Ro.Sub.CanaryRev != "" && cs.Wl.UpdateRevision != cs.Ro.Sub.CanaryRev &&
+			!(cs.Wl.InProgressAnno && cs.Wl.CurrentRevision == cs.Wl.UpdateRevision && cs.Wl.Updated != cs.Wl.StatusReplicas) {
+			return "reset"
+		}
+		return "rolling"
+	}
+	return "none"
+}
+
+func cllCursorSet(cs cllCS) bool {
+	return cs.Ro != nil && cs.Ro.Sub != nil && cs.Ro.Sub.FinStep != "" && cs.Ro.Sub.FinStep != "empty"
 }
 
 func cllNewWalk(c *Ctx, sc clScenario) *cllWalk {
@@ -281,6 +326,32 @@ func (w *cllWalk) do(label string) {
 		}
 		if !w.quiet && failAt < 0 {
 			w.proj(pre)
+		}
+		if pre.Ro != nil && (pre.Ro.Deleting || pre.Ro.Phase == "Terminating" || pre.Ro.Phase == "Disabling") &&
+			(pre.Wl == nil || pre.Wl.Generation != pre.Wl.ObservedGeneration) && pre.Net.StableSel != nil {
+			w.noRevKey = true
+		}
+		// the reconcile that notices a deletion still runs the Progressing branch: a reset of a superseded release running for
+		// a Rollout that is already being deleted deletes the BatchRelease the exit clean-up would have to resume
+		if pre.Ro != nil && pre.Ro.Deleting && pre.Ro.Phase == "Progressing" && cllActivity(pre) == "reset" {
+			w.staleCursor = true
+		}
+		// a reset that is abandoned (the workload is back at the released revision, or rolled back) after it has deleted the
+		// BatchRelease leaves a release without BatchRelease: nothing resumes the workload at the end
+		if act := cllActivity(pre); act != "none" {
+			if w.lastAct == "reset" && (act == "rolling" || act == "rollback") {
+				w.staleCursor = true
+			}
+			w.lastAct = act
+		}
+		if act := cllActivity(pre); cllCursorSet(pre) && act != "none" && pre.Ro.Sub.FinStep != "end_" {
+			if w.cursorAct == "" {
+				w.cursorAct = act
+			}
+			if act != w.cursorAct || act == "rolling" {
+				w.staleCursor = true
+				w.cursorAct = act
+			}
 		}
 		b0, w0, had := s.cllSpecs()
 		// the one-step model of the Rollout reconcile has no finalizer on the BatchRelease: a Delete of a
@@ -322,7 +393,22 @@ func (w *cllWalk) do(label string) {
 		if w.fwd {
 			w.earlyRelease = false
 		}
+		if pre.Ro != nil && ((pre.Ro.Phase == "Progressing" && (pre.Ro.Reason == "finalising" || pre.Ro.Reason == "cancelling")) ||
+			pre.Ro.Phase == "Terminating" || pre.Ro.Phase == "Disabling") {
+			w.lateRelease = true
+		}
 		s.release(rev)
+	case label == "rollback":
+		// the user reverts the pod template to the stable revision; the CloneSet controller observes it at once (the pods of the
+		// abandoned revision stay: partition 100 %) — Lean: RV.ClosedLoop.rollbackWl
+		w.del = false
+		w.fwd = false
+		w.supNow = false
+		if pre.Ro != nil && ((pre.Ro.Phase == "Progressing" && (pre.Ro.Reason == "finalising" || pre.Ro.Reason == "cancelling")) ||
+			pre.Ro.Phase == "Terminating" || pre.Ro.Phase == "Disabling") {
+			w.lateRelease = true
+		}
+		s.rollback()
 	case label == "approve":
 		s.approve()
 	case label == "tick":
@@ -336,18 +422,28 @@ func (w *cllWalk) do(label string) {
 			w.del = true
 		}
 		w.fwd = false
+		// (also when the only BatchRelease is a superseded one already in deletion: nothing will release the workload either)
+		if pre.Ro != nil && pre.Wl != nil && pre.Wl.InProgressAnno && (pre.Br == nil || pre.Br.Deleting) {
+			w.earlyExit = true
+		}
 		s.deleteRollout()
 	default:
 		panic("closedloop: unknown label " + label)
 	}
 	post := cllCanon(s.cllJoint())
+	if !cllCursorSet(post) {
+		w.cursorAct = ""
+	} else if !cllCursorSet(pre) {
+		w.cursorAct = cllActivity(pre)
+	}
 	if !w.quiet {
 		hist := append([]string{}, w.hist...)
 		var impl interface{} = post
 		if s.panicked {
 			impl = J{"panic": "?"}
 		}
-		w.c.EmitAs("closedloop", "cstep", J{"scenario": w.sc, "hist": hist, "pre": pre, "label": emitLabel, "fwd": w.fwd, "del": w.del, "earlyRelease": w.earlyRelease, "sup": supBefore}, impl)
+		w.c.EmitAs("closedloop", "cstep", J{"scenario": w.sc, "hist": hist, "pre": pre, "label": emitLabel, "fwd": w.fwd, "del": w.del, "earlyRelease": w.earlyRelease, "sup": supBefore,
+			"lateRelease": w.lateRelease, "earlyExit": w.earlyExit, "noRevKey": w.noRevKey, "staleCursor": w.staleCursor}, impl)
 	}
 	w.sup = w.supNow
 	if strings.HasPrefix(label, "release:") && w.releasedAt < 0 {
@@ -408,7 +504,8 @@ func (w *cllWalk) trace() {
 	}
 	w.c.Done(0)
 	w.c.EmitAs("closedloop", "trace", J{"scenario": w.sc, "labels": w.hist, "states": w.states, "fwd": w.fwds,
-		"fair": w.fair, "healthy": w.healthy, "terminalAt": w.terminalAt, "rounds": w.ticks, "steps": len(w.sc.Steps)}, nil)
+		"fair": w.fair, "healthy": w.healthy, "terminalAt": w.terminalAt, "rounds": w.ticks, "steps": len(w.sc.Steps),
+		"lateRelease": w.lateRelease, "earlyExit": w.earlyExit, "noRevKey": w.noRevKey, "staleCursor": w.staleCursor, "kind": w.kind}, nil)
 }
 
 var cllRound = []string{"ro", "br", "env", "approve", "tick"}
@@ -430,6 +527,7 @@ func (w *cllWalk) manualPause() bool {
 func cllFair(c *Ctx, sc clScenario, events map[int]string, rounds int) *cllWalk {
 	w := cllNewWalk(c, sc)
 	w.healthy, w.fair = true, true
+	w.kind = "fair"
 	released, stopAt := false, -1
 	for r := 0; r < rounds; r++ {
 		if ev, ok := events[r]; ok {
@@ -470,6 +568,7 @@ func cllFair(c *Ctx, sc clScenario, events map[int]string, rounds int) *cllWalk 
 func cllSupersede(c *Ctx, sc clScenario, early bool) *cllWalk {
 	w := cllNewWalk(c, sc)
 	w.fair = true
+	w.kind = "supersede"
 	for r := 0; r < 2; r++ {
 		for _, l := range cllRound {
 			w.do(l)
@@ -548,6 +647,7 @@ func cllPickLabel(c *Ctx, released *int, deleted *bool, allowEvents bool) string
 // random walk: any interleaving of the labels
 func cllRandom(c *Ctx, sc clScenario, n int) *cllWalk {
 	w := cllNewWalk(c, sc)
+	w.kind = "random"
 	// reach Healthy first (fair), then the first release
 	for r := 0; r < 2; r++ {
 		for _, l := range cllRound {
@@ -590,12 +690,36 @@ func runClosedLoop(c *Ctx) {
 		nScen = 14
 	}
 	scens := clScenarios(c, nScen)
+	// traffic scenarios (slice cltraffic): appended after the shared ones so that the generator stream of suite cluster is untouched
+	nTr := 3
+	if c.Thorough() {
+		nTr = 14
+	}
+	scens = append(scens, cllTrafficScenarios(c, nTr)...)
+	var trScens []clScenario
+	for _, sc := range scens {
+		if sc.HasTraffic {
+			trScens = append(trScens, sc)
+		}
+	}
 	budget := c.N
 	for i, sc := range scens {
 		if i < 2 {
 			w := cllSupersede(c, sc, false)
 			w.trace()
 			w = cllSupersede(c, sc, true)
+			w.trace()
+		}
+	}
+	// deterministic part of the traffic walks (slice cltraffic): rollback / supersession / deletion while a weight is live, an
+	// API fault after the first write of the reconcile that reacts to it, a crash between the Service writes and the route write
+	for _, sc := range trScens {
+		if !(sc.Name == "pct-traffic" || sc.Name == "tr-disablegen" ||
+			(c.Thorough() && (sc.Name == "tr-weight-plain-weight" || sc.Name == "roundup-full-step" || sc.Name == "mixed-traffic-then-plain"))) {
+			continue
+		}
+		for _, combo := range cllTrCombos {
+			w := cllTrafficEvent(c, sc, combo[0], combo[1], 0)
 			w.trace()
 		}
 	}
@@ -618,6 +742,12 @@ func runClosedLoop(c *Ctx) {
 			}
 			w = cllRandom(c, sc, 60+c.Rng.Intn(120))
 			w.trace()
+			if c.Count >= budget {
+				break
+			}
+			// a user event / crash / API fault at a chosen network moment of a traffic scenario
+			w = cllTrafficWalk(c, trScens)
+			w.trace()
 		}
 		if c.Count == before {
 			break
@@ -635,6 +765,7 @@ func replayClosedLoop(c *Ctx, op string, raw json.RawMessage) {
 		Label    string     `json:"label"`
 		Fair     bool       `json:"fair"`
 		Healthy  bool       `json:"healthy"`
+		Kind     string     `json:"kind"`
 	}
 	if err := json.Unmarshal(raw, &in); err != nil {
 		panic(err)
@@ -658,7 +789,7 @@ func replayClosedLoop(c *Ctx, op string, raw json.RawMessage) {
 			w.do(l)
 		}
 		w.quiet = false
-		w.fair, w.healthy = in.Fair, in.Healthy
+		w.fair, w.healthy, w.kind = in.Fair, in.Healthy, in.Kind
 		w.trace()
 	case "proj":
 		// a projection line carries no history: nothing to re-run
